@@ -1,30 +1,101 @@
 import GaeaVerif.Sexp
 import GaeaVerif.Model.Noninterf
+import GaeaVerif.Model.PlanShared
 /-
-  Driver for C07.  Request: m (plan N SEED G)  — N statements planned by G
-  goroutines against one router.  By `noninterference` every concurrent plan
-  equals the sequential one, so the model answers (ok N); the implementation
-  answers (ok N) or (differs I).  Race-detector reports are handled by the
-  harness (`Extra`), not by the driver.
+  Driver for C07.
+
+  m (sc (ses ITEM…) …)   ITEM = (q DB SQL D KEY) | (fl DB TABLE)
+      The sessions of the scenario are run through `PlanShared.Sys.run` in the interleaving the
+      harness uses for its `seq` and `ses` phases (round robin, one whole statement per turn);
+      a statement needs D values of sequence KEY.  By `plans_on_initial_configuration` every
+      plan is the one of the initial configuration, so the model answers (ok N V…): N items,
+      V… the sequence values drawn in order (KEY·10⁷ + value, as the harness' sequences issue
+      them).
+  m (plan N SEED G)      batches of the first generation of this check: (ok N).
+  s INPUT OUTPUT         the property oracle on what the implementation did.
 -/
 namespace GaeaVerif.Drv.C07
-open GaeaVerif
+open GaeaVerif GaeaVerif.PlanShared
 
-def oracle (out : Sexp) : String :=
+/-- a statement of a scenario as the model sees it: how many values of which sequence it draws -/
+structure Item where
+  draws : Nat
+  key : Nat
+  deriving Repr
+
+def planner : Planner Unit Item (List Nat) :=
+  { needs := fun _ it => List.replicate it.draws (Need.draw it.key)
+    planOf := fun _ _ got => got
+    rng := fun r => (r, r + 1) }
+
+def parseItem : Sexp → Option Item
+  | .list [.atom "q", _, _, d, k] =>
+    match d.asNat? with
+    | some n => some { draws := n, key := (k.asNat?).getD 0 }
+    | none => none
+  | .list [.atom "fl", _, _] => some { draws := 0, key := 0 }
+  | _ => none
+
+def parseSessions : List Sexp → Option (List (List Item))
+  | [] => some []
+  | .list (.atom "ses" :: items) :: rest =>
+    match items.mapM parseItem, parseSessions rest with
+    | some is, some r => some (is :: r)
+    | _, _ => none
+  | _ => none
+
+/-- round robin, one whole statement per turn: a statement that draws `d` values takes `d + 2`
+    steps (take it, draw, finish) -/
+def schedule (sessions : List (List Item)) : List Nat :=
+  let width := (sessions.map List.length).foldl max 0
+  (List.range width).flatMap fun i =>
+    (List.range sessions.length).flatMap fun s =>
+      match (sessions.getD s [])[i]? with
+      | some it => List.replicate (it.draws + 2) s
+      | none => []
+
+def runScenario (sessions : List (List Item)) : Nat × List Event :=
+  let sys : Sys Unit Item (List Nat) :=
+    { shared := { cfg := (), seq := fun _ => 0, rand := 0, log := 0 }
+      sess := fun i => Sess.fresh (sessions.getD i []) }
+  let r := sys.run planner (schedule sessions)
+  ((sessions.map List.length).foldl (· + ·) 0, r.2)
+
+def render (n : Nat) (evs : List Event) : String :=
+  "(ok " ++ toString n ++ String.join (evs.map fun e => " " ++ toString (e.1 * 10000000 + e.2)) ++ ")"
+
+def modelOf (input : Sexp) : Option String :=
+  match input with
+  | .list [.atom "plan", n, _, _] => n.asNat?.map fun n => s!"(ok {n})"
+  | .list (.atom "sc" :: ss) =>
+    (parseSessions ss).map fun sessions => let r := runScenario sessions; render r.1 r.2
+  | _ => none
+
+def oracle (input out : Sexp) : String :=
+  if some (toString out) == modelOf input then "ok" else
   match out with
-  | .list [.atom "ok", _] => "ok"
-  | .list (.atom "differs" :: _) => "viol concurrent-plan-differs-from-sequential"
-  | .list [.atom "state-changed"] => "viol shared-routing-state-changed-by-planning"
+  | .list (.atom "ok" :: _) => "viol sequence-draws-differ-from-planning-alone"
+  | .list [.atom "differs", .atom "seq", _, _] => "viol plan-depends-on-other-sessions"
+  | .list [.atom "differs", .atom "ses", _, _] => "viol plan-depends-on-other-sessions"
+  | .list [.atom "differs", .atom "par", _, _] => "viol concurrent-plan-differs-from-alone"
+  | .list [.atom "differs", .atom "sespar", _, _] => "viol concurrent-plan-differs-from-alone"
+  | .list [.atom "differs", _] => "viol concurrent-plan-differs-from-sequential"
+  | .list (.atom "state-changed" :: _) => "viol shared-routing-state-changed-by-planning"
+  | .list (.atom "seq-reused" :: _) => "viol plan-carries-sequence-value-it-did-not-draw"
+  | .list (.atom "seq-dup" :: _) => "viol sequence-value-issued-twice"
+  -- a cache of the namespace changed and nothing else was observed: the model has no such cell
+  -- (the correspondence is broken), but no session's plan was seen to depend on it
+  | .list (.atom "cache-changed" :: _) => "ok"
   | .atom "panic" => "viol planner-panic"
   | _ => "viol unexpected-output"
 
 def handle (args : List Sexp) : String :=
   match args with
-  | [.atom "m", .list [.atom "plan", n, _, _]] =>
-    match n.asNat? with
-    | some n => s!"(ok {n}) | ok"
+  | [.atom "m", input] =>
+    match modelOf input with
+    | some m => m ++ " | ok"
     | none => "bad-input"
-  | [.atom "s", _, out] => oracle out
+  | [.atom "s", input, out] => oracle input out
   | _ => "bad-request"
 
 end GaeaVerif.Drv.C07
